@@ -28,11 +28,13 @@ structure Cfg where
   wps : Nat                  -- WritePartSize (0: unlimited)
   lat : Bytes                -- a serialized current last access time
   mem : Bool                 -- memory cache enabled: refreshes go through it and are drained to disk
+  verify : Bool := true      -- `SkipHashVerification` is off: a commit checks the digest of the upload
   digest : Bytes → String    -- hex SHA-256
   genMI : Bytes → Bytes      -- the serialized metainfo of a blob
   metaOK : Bytes → Bool      -- TorrentMeta.Deserialize accepts the bytes
 
 def persistTrue : Bytes := [116, 114, 117, 101]
+def persistFalse : Bytes := [102, 97, 108, 115, 101]
 
 /-- casFileEntryFactory.GetRelativePath: two shard levels taken from the name -/
 def shards (n : String) : List String :=
@@ -50,9 +52,11 @@ structure Mem where
 
 inductive Res where
   | ok | exist | notFound | verifyFail | errOther
+  | persisted                    -- delete: the persist flag is set
   | bytes (b : Bytes)            -- read
   | found (t : Bytes)            -- getmeta: a sidecar that decodes
   | absent                       -- getmeta: os.IsNotExist
+  | accepted                     -- metareq: 202, a refresh from the backend was started
   deriving DecidableEq, Repr
 
 structure Out where
@@ -153,7 +157,7 @@ def commit (cfg : Cfg) (o : Order Name) (m : Mem) (fs : FS Name) (u n : String) 
   match fs.file? (uploadDir u) .data with
   | none => fin m fs [] .errOther
   | some c =>
-    if cfg.digest c ≠ n then fin m fs [] .verifyFail else
+    if cfg.verify = true ∧ cfg.digest c ≠ n then fin m fs [] .verifyFail else
     -- createFileHelper on the cache store
     if isCached m n then
       let (m1, tc) := touch cfg m fs n
@@ -206,8 +210,22 @@ def refresh (cfg : Cfg) (o : Order Name) (m : Mem) (fs : FS Name) (n : String) (
   let pre := r1.calls ++ r2.calls ++ r3.calls
   if r3.res ≠ .ok ∧ r3.res ≠ .exist then ⟨r3.mem, pre, r3.res⟩ else
   -- the memory cache takes a blob that verifies; its drain computes the metainfo from the buffer
-  let w := writeMeta cfg r3.mem fs3 n (if cfg.mem ∧ cfg.digest b = n then some b else none)
+  let w := writeMeta cfg r3.mem fs3 n (if cfg.mem ∧ (cfg.verify = false ∨ cfg.digest b = n) then some b else none)
   ⟨w.mem, pre ++ w.calls, w.res⟩
+
+/-- `DeleteCacheFile(n)` (TTL clean-up, forced clean-up; an LRU eviction does the same to its victim):
+the entry leaves the file map whatever happens; a set persist flag refuses, an unreadable one fails;
+otherwise the directory is removed -/
+def delete (cfg : Cfg) (o : Order Name) (m : Mem) (fs : FS Name) (n : String) : Out :=
+  let l := loadCache cfg m fs n
+  if !l.present then ⟨m, [], .notFound⟩ else
+  let m' : Mem := { l.mem with cached := adel l.mem.cached n }
+  match l.fs.file? (cacheDir n) .persist with
+  | some p =>
+    if p = persistTrue then ⟨m', l.calls, .persisted⟩
+    else if p = persistFalse then ⟨m', l.calls ++ removeAllPlan l.fs o (cacheDir n), .ok⟩
+    else ⟨m', l.calls, .errOther⟩
+  | none => ⟨m', l.calls ++ removeAllPlan l.fs o (cacheDir n), .ok⟩
 
 /-- `GetCacheFileReader(n)` and reading it to the end -/
 def read (cfg : Cfg) (m : Mem) (fs : FS Name) (n : String) : Out :=
@@ -225,6 +243,28 @@ def getmeta (cfg : Cfg) (m : Mem) (fs : FS Name) (n : String) : Out :=
   match l.fs.file? (cacheDir n) .tmeta with
   | none => ⟨l.mem, l.calls, .absent⟩
   | some t => ⟨l.mem, l.calls, if cfg.metaOK t then .found t else .absent⟩
+
+/-- `Server.getMetaInfo` (origin/blobserver): a sidecar that decodes is served; otherwise a blob that is
+cached gets its metainfo generated from the cached file (`Generate`) and served; a blob that is not
+cached is fetched from the backend when the backend has it (`backend = some bytes`: the refresher's
+download, answered 202 while it runs — its calls are part of this operation), else 404. -/
+def metareq (cfg : Cfg) (o : Order Name) (m : Mem) (fs : FS Name) (n : String) (backend : Option Bytes) : Out :=
+  let g := getmeta cfg m fs n
+  match g.res with
+  | .found t => ⟨g.mem, g.calls, .found t⟩
+  | _ =>
+    let fs1 := applyAll fs g.calls
+    if (loadCache cfg g.mem fs1 n).present then
+      let w := genmeta cfg g.mem fs1 n
+      let fs2 := applyAll fs1 w.calls
+      let g2 := getmeta cfg w.mem fs2 n
+      ⟨g2.mem, g.calls ++ w.calls ++ g2.calls, match g2.res with | .found t => .found t | _ => .errOther⟩
+    else
+      match backend with
+      | none => ⟨g.mem, g.calls, .notFound⟩
+      | some b =>
+        let r := refresh cfg o g.mem fs1 n b
+        ⟨r.mem, g.calls ++ r.calls, .accepted⟩
 
 def sortPaths (ps : List Path) : List Path :=
   isort (fun a b => decide (a.getLast?.getD "" ≤ b.getLast?.getD "")) ps
@@ -250,6 +290,8 @@ inductive Op where
   | refresh (n : String) (b : Bytes)
   | read (n : String)
   | getmeta (n : String)
+  | metareq (n : String) (backend : Option Bytes)
+  | delete (n : String)
   | restart
   deriving DecidableEq, Repr
 
@@ -262,6 +304,8 @@ def exec (cfg : Cfg) (o : Order Name) (m : Mem) (fs : FS Name) : Op → Out
   | .refresh n b => refresh cfg o m fs n b
   | .read n => read cfg m fs n
   | .getmeta n => getmeta cfg m fs n
+  | .metareq n backend => metareq cfg o m fs n backend
+  | .delete n => delete cfg o m fs n
   | .restart => ⟨{}, restartPlan o fs, .ok⟩
 
 def plan (cfg : Cfg) (o : Order Name) (m : Mem) (fs : FS Name) (op : Op) : List (Call Name) :=
